@@ -89,6 +89,234 @@ def describe(line, out):
     return "%s [%s]: Tensor API -> %s ; Node API -> %s" % (sig, t[4], T[:120], N[:120])
 
 
+# ---------------------------------------------------------------------------------------------
+# The real instance of the API model (coq/Tables/RealSem.v at R := Q, Tables/RealExamples.qshow)
+# against the real code: the same default call as harness/api_row_drv.cc makes for a table row,
+# as a program of the model; compared: accepted / rejected by the Tensor API and at node creation,
+# result shapes, static Node shapes, and - for the core family, whose data the model computes
+# through the kernel index programs - the values (the harness data are multiples of 1/4: float32
+# is exact there).
+_UN = ["positive", "negative", "flatten", "transpose", "abs", "sqrt", "exp", "log", "tanh", "sigmoid", "softplus", "sin", "cos",
+       "tan", "relu", "lrelu", "stop_gradient"]
+
+
+def _fk(ns, name, tys):
+    return '("%s", "%s", [%s])' % (ns, name, "; ".join('"%s"' % t for t in tys))
+
+
+def model_program(ns, name, tys, variant):
+    """Coq text of the model program for one harness line, or None (composite rows, gumbel)."""
+    t = [x for x in tys.split(",") if x and x != "-" and x != "Graph*"]
+    U = lambda n: "AAttr (AU %d%%N)" % n
+    Fq = lambda a, b: "AAttr (AF (Qmake %d %d))" % (a, b)
+    X0, X1 = "ARef 0 0", "ARef 1 0"
+    DEV = "AAttr (ADev None)"
+    SHM = "AAttr (ASh [2; 2]%N 1%N)"
+    if ns == "functions":
+        if name in _UN and t == ["X"]:
+            return ["qM"], _fk(ns, name, t), [X0]
+        if name in ("add", "subtract", "multiply", "divide", "pow"):
+            if t == ["X", "float"]:
+                return ["qM"], _fk(ns, name, t), [X0, Fq(2, 1)]
+            if t == ["float", "X"]:
+                return ["qM"], _fk(ns, name, t), [Fq(2, 1), X0]
+            if t == ["X", "X"]:
+                a = "qS" if variant in ("a-scalar", "both-scalar") else "qM"
+                b = "qS" if variant in ("b-scalar", "both-scalar") else "qM"
+                return [a, b], _fk(ns, name, t), [X0, X1]
+        if name == "pown":
+            return ["qM"], _fk(ns, name, t), [X0, "AAttr (AI 2%Z)"]
+        if name == "input_node":
+            return [], _fk(ns, "input_tensor", t), ["AAttr (ASh [2; 2]%N 1%N)", "AAttr (AFs (qdata 4))", DEV]
+        if name == "parameter_node":
+            return ["qP"], _fk(ns, "parameter_tensor", t), [X0]
+        if name == "copy":
+            return ["qM"], _fk(ns, name, t), [X0, DEV]
+        if name == "pick":
+            return ["qM"], _fk(ns, name, t), [X0, "AAttr (AUs [0%N])", U(2)]
+        if name == "slice":
+            return ["qM"], _fk(ns, name, t), [X0, U(0), U(0), U(1)]
+        if name == "split":
+            return ["qM"], _fk(ns, name, t), [X0, U(0), U(2)]
+        if name == "concat<X>" and t == ["vec<X*>", "u32"]:
+            return ["qM", "qM"], _fk(ns, name, t), ["ARefs %s" % ("[]" if variant == "empty" else "[(0, 0); (1, 0)]"), U(0)]
+        if name == "reshape":
+            return ["qM"], _fk(ns, name, t), [X0, "AAttr (ASh [4]%N 1%N)"]
+        if name == "flip":
+            return ["qM"], _fk(ns, name, t), [X0, U(0)]
+        if name == "permute_dims":
+            return ["qM"], _fk(ns, name, t), [X0, "AAttr (AUs [1%N; 0%N])"]
+        if name == "matmul":
+            return ["qM"], _fk(ns, name, t), [X0, X0]
+        if name in ("prelu", "elu"):
+            return ["qM"], _fk(ns, name, t), [X0, Fq(1, 2)]
+        if name in ("max", "min", "sum", "logsumexp"):
+            return ["qM"], _fk(ns, name, t), [X0, U(0)]
+        if name == "broadcast":
+            return ["qM"], _fk(ns, name, t), [X0, U(2), U(3)]
+        if name == "softmax_cross_entropy" and t == ["X", "X", "u32"]:
+            return ["qM"], _fk(ns, name, t), [X0, X0, U(0)]
+        if name == "softmax_cross_entropy" and t == ["X", "vec<u32>", "u32"]:
+            return ["qM"], _fk(ns, name, t), [X0, "AAttr (AUs [0%N])", U(0)]
+        if name == "conv2d":
+            return ["qM"], _fk(ns, name, t), [X0, X0, U(0), U(0), U(1), U(1), U(1), U(1)]
+        if name == "max_pool2d":
+            return ["qM"], _fk(ns, name, t), [X0, U(1), U(1), U(0), U(0), U(1), U(1)]
+        if name == "constant_node":
+            return [], _fk(ns, "constant_tensor", t), [SHM, Fq(2, 1), DEV]
+        if name == "identity_node":
+            return [], _fk(ns, "identity_tensor", t), [U(2), DEV]
+    elif ns == "functions::batch":
+        if name == "pick":
+            return ["qB"], _fk(ns, name, t), [X0, "AAttr (AUs [0%N])"]
+        if name == "slice":
+            return ["qB"], _fk(ns, name, t), [X0, U(0), U(1)]
+        if name == "split":
+            return ["qB"], _fk(ns, name, t), [X0, U(2)]
+        if name == "concat<X>" and t == ["vec<X*>"]:
+            return ["qM", "qM"], _fk(ns, name, t), ["ARefs %s" % ("[]" if variant == "empty" else "[(0, 0); (1, 0)]")]
+        if name == "sum":
+            return ["qB"], _fk(ns, name, t), [X0]
+    elif ns == "functions::random":
+        two = {"bernoulli_node": [Fq(1, 2)], "uniform_node": [Fq(0, 1), Fq(1, 1)], "normal_node": [Fq(0, 1), Fq(1, 1)],
+               "log_normal_node": [Fq(0, 1), Fq(1, 1)]}
+        if name in two:
+            return [], _fk(ns, name.replace("_node", "_tensor"), t), [SHM] + two[name] + [DEV]
+    return None
+
+
+def _coq_term(txt):
+    """parse the printed Coq value (lists, tuples, inl/inr, numbers, identifiers) into python."""
+    import re as _re
+    toks = _re.findall(r"-?\d+|[A-Za-z_][A-Za-z_0-9]*|[\[\]();,]", _re.sub(r"%[A-Za-z_]+", "", txt))
+    pos = [0]
+
+    def item():
+        tk = toks[pos[0]]
+        if tk == "[":
+            pos[0] += 1
+            out = []
+            while toks[pos[0]] != "]":
+                out.append(app())
+                if toks[pos[0]] == ";":
+                    pos[0] += 1
+            pos[0] += 1
+            return out
+        if tk == "(":
+            pos[0] += 1
+            out = [app()]
+            while toks[pos[0]] == ",":
+                pos[0] += 1
+                out.append(app())
+            pos[0] += 1
+            return out[0] if len(out) == 1 else tuple(out)
+        pos[0] += 1
+        return int(tk) if _re.fullmatch(r"-?\d+", tk) else tk
+
+    def app():
+        h = item()
+        if h in ("inl", "inr"):
+            return (h, item())
+        return h
+    return app()
+
+
+def _flat(x):
+    """left-nested Coq tuples ((a, b), c) -> (a, b, c)."""
+    while isinstance(x, tuple) and len(x) == 2 and isinstance(x[0], tuple):
+        x = tuple(x[0]) + (x[1],)
+    return x
+
+
+def _hshape(txt):
+    m = re.fullmatch(r"\[([0-9,]*)\]x(\d+)", txt)
+    return ([int(v) for v in m.group(1).split(",") if v], int(m.group(2))) if m else None
+
+
+def model_rows(ctx, lines, outs):
+    """run every harness call line through the real instance of the model and compare with what the real code did."""
+    from fractions import Fraction
+    res = {"ran": False}
+    ctx.cov["real_instance_vs_code"] = res
+    ok, log = pv.coq_make(["Tables/RealExamples.vo"], timeout=600)
+    if not ok:
+        res["reason"] = "Tables/RealExamples.vo does not build: " + log[-300:]
+        return
+    core = set()
+    progs = []
+    for i, (l, o) in enumerate(zip(lines, outs)):
+        t = l.split()
+        if t[0] != "call" or not o.startswith(("agree", "DIFF")):
+            continue
+        mp = model_program(t[1], t[2], t[3], t[4])
+        if mp is None:
+            continue
+        ins, fk, args = mp
+        progs.append((i, "[%s]" % "; ".join(ins + ["mk %s [%s]" % (fk, "; ".join(args))])))
+    d = os.path.join(pv.WORK, "gen")
+    os.makedirs(d, exist_ok=True)
+    src = os.path.join(d, "c04_model_rows%s.v" % ("" if pv.REPO == "/repo" else "_scratch"))
+    body = ["From Coq Require Import List String Bool NArith ZArith QArith.",
+            "From PV Require Import Shape.ShapeImpl Tables.ApiModel Tables.ApiTable Tables.RealSem Tables.RealExamples.",
+            "Import ListNotations.", "Close Scope Q_scope.", "Open Scope string_scope.",
+            'Eval vm_compute in ("CORE", core_functions).']
+    body += ['Eval vm_compute in ("ROW %d", qshow %s).' % (i, p) for i, p in progs]
+    open(src, "w").write("\n".join(body) + "\n")
+    rc, out = pv.sh("ulimit -v 12000000; timeout 600 coqc -Q %s PV %s" % (pv.COQ, src), timeout=620, cwd=d)
+    flat = re.sub(r"\s+", " ", out)
+    mcore = re.search(r'\("CORE",(.*?)\) : ', flat)
+    if mcore:
+        core = set(x.replace("batch::", "") for x in re.findall(r'"([^"]*)"', mcore.group(1)))
+    got = {int(m.group(1)): m.group(2) for m in re.finditer(r'\("ROW (\d+)",(.*?)\) : string', flat)}
+    if rc != 0 or len(got) < len(progs):
+        res["reason"] = "coqc on the model programs failed / incomplete (%d of %d): %s" % (len(got), len(progs), out[-300:])
+        return
+    res.update({"ran": True, "rows": len(progs), "shape_agree": 0, "value_agree": 0, "value_rows": 0, "mismatch": []})
+    for i, _ in progs:
+        l, o = lines[i], outs[i]
+        t = l.split()
+        mt = re.search(r" T=(\S*)", o)
+        mn = re.search(r" N=(\S*)", o)
+        T, N = (mt.group(1) if mt else "?"), (mn.group(1) if mn else "?")
+        try:
+            eager, create = _coq_term(got[i])
+        except Exception as e:
+            res["mismatch"].append({"case": l, "why": "cannot parse the model output: %s" % e})
+            continue
+        why = None
+        hs = [_hshape(x) for x in T.split("_")[1].split(";") if x] if T.startswith("ok_") else None
+        if T.startswith("ok_") != (eager[0] == "inl"):
+            why = "Tensor API %s, model %s" % (T[:60], eager)
+        elif N.startswith("ok_") != (create[0] == "inl") and not (T.startswith("err") and eager[0] == "inr"):
+            why = "node creation %s, model %s" % (N[:60], create)
+        elif hs is not None:
+            ms = [(list(_flat(x)[0]), _flat(x)[1]) for x in eager[1]]
+            cs = [(list(x[0]), x[1]) for x in create[1]] if create[0] == "inl" else None
+            if ms != [(a, b) for a, b in hs]:
+                why = "shapes: code %s, model %s" % (hs, ms)
+            elif cs is not None and cs != ms:
+                why = "static Node shapes of the model %s differ from its tensor shapes %s" % (cs, ms)
+            else:
+                res["shape_agree"] += 1
+                fn = t[2].replace("_node", "_tensor")
+                if fn in core and t[1] != "functions::random":
+                    res["value_rows"] += 1
+                    hv = [[Fraction(v) for v in x.split(":")[1].split(",") if v] for x in T.split("_")[2].split(";") if x]
+                    mv = [[Fraction(a, b) for a, b in _flat(x)[2]] for x in eager[1]]
+                    if len(hv) == len(mv) and all(len(a) == len(b) and all(abs(p - q) <= Fraction(1, 100000) * max(1, abs(q)) for p, q in zip(a, b))
+                                                   for a, b in zip(hv, mv)):
+                        res["value_agree"] += 1
+                    else:
+                        why = "values: code %s, model %s" % ([[float(v) for v in x] for x in hv], [[float(v) for v in x] for x in mv])
+        else:
+            res["shape_agree"] += 1      # rejected by both
+        if why:
+            res["mismatch"].append({"case": l, "why": why[:400]})
+    for m in res["mismatch"][:3]:
+        txt = "the real instance of the API model (Tables/RealSem.v) and the code disagree on `%s`: %s" % (m["case"], m["why"])
+        ctx.violation("model-row", {"kind": "model-vs-code", "case": m["case"], "witness": "model-row :: " + m["case"], "text": txt}, True, txt)
+
+
 def coq_bad_rows(ctx):
     """ask Coq which rows / classes fail which checker (needs Tables/OpCheck.vo, which does not
     depend on any proof)."""
@@ -180,6 +408,10 @@ def _run(ctx):
     # two-API replay of every row + composite sweep on the real code
     impl = pv.build_harness("plain", "api_row_drv")
     bad, outs = run_rows(ctx, impl, lines, "plain")
+    try:
+        model_rows(ctx, lines, outs)
+    except Exception as e:   # an infrastructure failure of this auxiliary comparison is recorded, not alarmed
+        ctx.cov["real_instance_vs_code"] = {"ran": False, "reason": "%s: %s" % (type(e).__name__, str(e)[:300])}
     variants = ["plain"]
     if not quick:
         for v in ("cache", "asan"):
@@ -322,6 +554,16 @@ def replay(ctx, obj):
     impl = pv.build_harness("plain", "api_row_drv")
     rc, out = pv.run_lines(impl, [case])
     print("both APIs -> %s" % out)
+    if obj.get("kind") == "model-vs-code":   # the real instance of the model against the code, on this call
+        class _C:
+            cov = {}
+            def violation(self, *a):
+                pass
+        c = _C()
+        model_rows(c, [case], out)
+        r = c.cov.get("real_instance_vs_code", {})
+        print("model vs code -> %s" % json.dumps(r)[:1500])
+        return 1 if r.get("mismatch") else 0
     if out and (out[0].startswith("DIFF") or (out[0].startswith("sweep") and "diffs=0" not in out[0])):
         print(describe(case, out[0]))
         return 1
